@@ -4,7 +4,8 @@
    to stored postings, price events, errors, states and runs. *)
 From Coq Require Import List NArith ZArith Bool QArith Qcanon.
 From Okv Require Import Base.Maps Base.Dec Model.Amount Model.Book Model.Query Model.Render
-     Proofs.MapsSort Proofs.RenderProofs.
+     Model.PriceDb Model.PriceSpec
+     Proofs.MapsSort Proofs.RenderProofs Proofs.PriceTable.
 Import ListNotations.
 
 (* values of the expression evaluator: numbers equal, commodity amounts the same map *)
@@ -103,3 +104,18 @@ Definition stdout_balance (s : bstate) (start end_ : option Z) := render_balance
 Definition stdout_register (s : bstate) (flt : option aid) := render_register (postings_of s flt).
 Definition stderr_of (r : outcome bstate * nat) : option (bk_err * nat) :=
   match fst r with Err e => Some (render_err e, snd r) | _ => None end.
+
+(* ---- the price repository: HashMap<price_with, HashMap<price_of, Entry>> in two iteration orders ---- *)
+Definition rec_equiv (r r' : records) : Prop :=
+  NoDup (keys r) /\ NoDup (keys r') /\
+  forall w, match get w r, get w r' with
+            | Some i, Some i' => map_equiv i i'
+            | None, None => True
+            | _, _ => False
+            end.
+
+(* the optimal chains from target to c as of `date` (least Distance) all give the same rate *)
+Definition tie_free (recs : records) (date : Z) (target c : cid) : Prop :=
+  forall r1 r2,
+    In r1 (best_rates (out_edges recs date) (length (rec_comms recs)) target c) ->
+    In r2 (best_rates (out_edges recs date) (length (rec_comms recs)) target c) -> r1 = r2.
